@@ -258,6 +258,7 @@ type Meta struct {
 	r        *Rig
 	mu       sync.Mutex
 	inflight map[string]*saveArgs // thread -> arguments of the Save call parked in the store
+	session  []uint16             // vBuckets handed to the last Load call
 }
 
 func (m *Meta) Save(state map[uint16]*models.CheckpointDocument, dirty map[uint16]bool, _ string) error {
@@ -278,7 +279,18 @@ func (m *Meta) Save(state map[uint16]*models.CheckpointDocument, dirty map[uint1
 	sort.Ints(ds)
 	m.mu.Lock()
 	m.inflight[t] = &saveArgs{state: state, dirty: dirty}
+	var missing []int
+	for _, vb := range m.session {
+		if _, ok := state[vb]; !ok {
+			missing = append(missing, int(vb)+1)
+		}
+	}
 	m.mu.Unlock()
+	if st := m.r.Stream(); len(missing) > 0 && st != nil && st.IsOpen() {
+		// a backend that stores the state it is handed as a whole (metadata/file_metadata.go) would lose these checkpoints
+		sort.Ints(missing)
+		m.r.S.Emit(Ev{"ev": "SaveArgsPartial", "t": t, "missing": missing})
+	}
 	m.r.S.Emit(Ev{"ev": "SaveBegin", "t": t, "dump": dump, "dirty": ds})
 	v := m.r.S.At("md.Save", "", nil)
 	m.mu.Lock()
@@ -336,6 +348,9 @@ func (m *Meta) Load(vbs []uint16, b string) (*wrapper.ConcurrentSwissMap[uint16,
 		l = append(l, int(v)+1)
 	}
 	sort.Ints(l)
+	m.mu.Lock()
+	m.session = append([]uint16{}, vbs...) // the vBuckets of the session that begins
+	m.mu.Unlock()
 	m.r.S.Emit(Ev{"ev": "Load", "vbs": l})
 	v := m.r.S.At("md.Load", "", nil)
 	if err, ok := v.(error); ok && err != nil {
